@@ -466,8 +466,9 @@ SPECIALS = {
                         also=sp_verdict('shapes', [M, ['fixtures', 4000], ['longattr', 1]], [MT, ['fixtures', 20000], ['longattr', 1]], 'impl-oracle')),
     'errshift': sp_verdict('shift', [['model', 1500, 40], ['mut', 1500, 300]], [['model', 20000, 40], ['mut', 20000, 400]], 'impl-oracle',
                            also=sp_gen_tie([['exotic', 10]], [['exotic', 100]])),
-    'limits': sp_verdict('limits', [M, ['mut', 500, 300], ['entities', 6]], [MT, ['mut', 10000, 400], ['entities', 16]], 'impl-oracle'),
-    'dtdpairs': chain(sp_verdict('dtdpairs', [['model', 2000, 20], ['mut', 1000, 400], ['enum', 2, 0], ['lexedge', 1]],
+    'limits': sp_verdict('limits', [M, ['mut', 500, 300], ['entities', 6], ['limitedge', 1]], [MT, ['mut', 10000, 400], ['entities', 16], ['limitedge', 1]], 'impl-oracle'),
+    'dtdpairs': chain(sp_verdict('dtdpairs', [['limitedge', 1]], [['limitedge', 1]], 'impl-oracle'),
+                      sp_verdict('dtdpairs', [['model', 2000, 20], ['mut', 1000, 400], ['enum', 2, 0], ['lexedge', 1]],
                                  [['model', 30000, 20], ['mut', 20000, 1000], ['enum', 3, 0], ['fixtures', 20000], ['lexedge', 1]], 'impl-oracle', limits=True),
                       sp_verdict('lxmlsum', [['model', 1500, 0], ['lexedge', 1]], [['model', 20000, 0], ['lexedge', 1], ['fixtures', 20000]], 'impl-oracle')),
     'ord': sp_ord,
